@@ -352,3 +352,136 @@ def pat_variants(p):
             go(p["sub"])
     go(p)
     return out
+
+
+# --------------------------------------------------------------------------------------------
+# IDDATA — an undo record names the slot whose old value it carries
+
+IDDATA_TEXT = ("every BacktrackInsn::SetCaptureGroup / SetLoopData aggregate pairs `id` with `data` read from the slot with that id: "
+               "when data is `*r` and r was obtained by indexing the group/loop store with J, id and J derive from the same value; when "
+               "data comes from iterating (with enumerate) a copy of store[range], id derives from both the enumeration index and the "
+               "start of that range; when r is a parameter, every call site passes store[X] together with the X the callee uses as id")
+
+
+def _int_roots(body, op, depth=0):
+    """Set of 'origin' descriptors of an integer operand: parameters/named locals/field reads it derives from
+    through copies, casts and additions."""
+    out = set()
+    if op.get("k") != "copy" and op.get("k") != "move":
+        if op.get("k") == "const":
+            out.add(("const", op.get("int")))
+        return out
+    pl = op["pl"]
+    fields = core.proj_fields(pl)
+    l = pl["l"]
+    if fields:
+        root, pr = body.root_of(l)
+        out.add(("field", body.local_name(root) or root, tuple(fields)))
+        return out
+    if depth > 10:
+        return out
+    if 1 <= l <= body.argc or body.local_name(l):
+        out.add(("local", body.local_name(l) or l))
+        # keep following named locals defined by a simple expression (e.g. `let group = *id;`)
+    for d in body.defs().get(l, []):
+        if d[2] == "assign":
+            rv = d[3]["rv"]
+            if rv["k"] in ("use", "cast"):
+                out |= _int_roots(body, rv["op"], depth + 1)
+            elif rv["k"] == "bin" and rv["op"].startswith(("Add", "Sub")):
+                out |= _int_roots(body, rv["a"], depth + 1) | _int_roots(body, rv["b"], depth + 1)
+        elif d[2] == "call":
+            cal = d[3].get("callee") or ""
+            if cal.endswith(("ops::Add::add",)):
+                for a in d[3]["args"]:
+                    out |= _int_roots(body, a, depth + 1)
+    return out
+
+
+def check_iddata(facts):
+    r = RuleResult("IDDATA", IDDATA_TEXT)
+    scope = [f for f in facts.body_names() if f.startswith("classicalbacktrack::MatchAttempter")]
+    n = 0
+    for fn in scope:
+        body = facts.body(fn)
+        for bi, i, s in body.iter_stmts():
+            if s["k"] != "assign" or s["rv"]["k"] != "agg" or not s["rv"].get("adt", "").endswith("BacktrackInsn"):
+                continue
+            if s["rv"]["variant"] not in ("SetCaptureGroup", "SetLoopData"):
+                continue
+            n += 1
+            fields = s["rv"]["fields"]
+            idop = s["rv"]["ops"][fields.index("id")]
+            dop = s["rv"]["ops"][fields.index("data")]
+            key = "%s %s %s" % (fn, arm_of(facts, fn, s.get("line")), s["rv"]["variant"])
+            where = facts.loc(fn, s.get("line"))
+            id_roots = _int_roots(body, idop)
+            # where does data come from?  data = copy (*r)
+            src = None
+            if dop["k"] in ("copy", "move"):
+                d = body.single_def(dop["pl"]["l"])
+                if d and d[2] == "assign" and d[3]["rv"]["k"] == "use" and d[3]["rv"]["op"]["k"] == "copy" and d[3]["rv"]["op"]["pl"]["p"][:1] == ["*"]:
+                    src = body.root_of(d[3]["rv"]["op"]["pl"]["l"])[0]
+                elif d and d[2] == "assign" and d[3]["rv"]["k"] == "agg":
+                    # a rebuilt struct (`LoopData { entry: .., ..data }`): restore side, out of scope
+                    r.ok(key, "rebuilt record on the restore side", nontrivial=False)
+                    continue
+            if src is None:
+                r.fail(key, "cannot see where the saved `data` comes from", where)
+                continue
+            if 1 <= src <= body.argc:
+                # parameter: check the call sites
+                pname = body.local_name(src)
+                bad = None
+                ncs = 0
+                for caller in scope:
+                    cb = facts.body(caller)
+                    for bb, t in cb.iter_calls():
+                        if (t.get("resolved") or t.get("callee")) != fn:
+                            continue
+                        ncs += 1
+                        arg = t["args"][src - 1]
+                        rt = cb.root_of(arg["pl"]["l"])[0] if arg["k"] in ("copy", "move") else None
+                        dd = cb.single_def(rt) if rt is not None else None
+                        if not (dd and dd[2] == "call" and (dd[3].get("callee") or "").endswith(("::mat", "::index_mut", "::iat", "::index"))):
+                            bad = "%s passes a `%s` that is not store[index] (line %s)" % (caller.split("::")[-1], pname, t.get("line"))
+                            continue
+                        idx_roots = _int_roots(cb, dd[3]["args"][1])
+                        # the callee's id derives from a field of another parameter: the caller's index must derive from the
+                        # same field of the argument passed for it
+                        want = {(x[2]) for x in id_roots if x[0] == "field"}
+                        have = {(x[2]) for x in idx_roots if x[0] == "field"}
+                        if not (want and want <= have):
+                            bad = "%s passes store[%s] but the record is labelled with %s (line %s)" % (
+                                caller.split("::")[-1], sorted(map(str, idx_roots)), sorted(map(str, id_roots)), t.get("line"))
+                if bad or not ncs:
+                    r.fail(key, bad or "no call site found", where)
+                else:
+                    r.ok(key, "%d call sites pass store[x.%s] with the same x" % (ncs, "/".join(sorted(".".join(w) for w in want))))
+                continue
+            dd = body.single_def(src)
+            if dd and dd[2] == "call" and (dd[3].get("callee") or "").endswith(("::mat", "::index_mut", "::iat", "::index")):
+                idx_roots = _int_roots(body, dd[3]["args"][1])
+                common = {x for x in id_roots if x[0] != "const"} & {x for x in idx_roots if x[0] != "const"}
+                if common:
+                    r.ok(key, "id and the index both derive from %s" % sorted(map(str, common)))
+                    r.sample({"key": key, "line": s.get("line"), "shared_origin": sorted(map(str, common))})
+                else:
+                    r.fail(key, "the record is labelled with %s but carries the data of slot %s: backtracking restores the wrong slot" % (
+                        sorted(map(str, id_roots)), sorted(map(str, idx_roots))), where)
+                continue
+            # data from an iteration over a saved copy: id must combine the enumeration index and the range start
+            names = {x[1] for x in id_roots if x[0] == "local"}
+            rng = [l for l, d in enumerate(body.locals) if d.get("name") == "range"]
+            start_names = set()
+            for l in rng:
+                for d in body.defs().get(l, []):
+                    if d[2] == "assign" and d[3]["rv"]["k"] == "agg" and "start" in d[3]["rv"].get("fields", []):
+                        start_names |= {x[1] for x in _int_roots(body, d[3]["rv"]["ops"][d[3]["rv"]["fields"].index("start")]) if x[0] == "local"}
+            if "idx" in names and start_names and (start_names & names):
+                r.ok(key, "id = enumeration index + %s (start of the saved range)" % sorted(start_names & names))
+            else:
+                r.fail(key, "records pushed while iterating the saved copy are labelled with %s; they must be labelled index + start of the "
+                            "saved range %s, otherwise backtracking restores other groups" % (sorted(names), sorted(start_names)), where)
+    r.floor("undo_records", n, 5)
+    return r
